@@ -13,7 +13,7 @@
    schedules, the Go memory model and the race detector are outside Coq; they are sampled by
    harness/cmd/c10 (exhaustive n <= 40 x s <= 20, -race build, GOMAXPROCS sweeps). *)
 From Coq Require Import List Arith ZArith Bool Permutation.
-From PF Require Import Par.Partition Par.Interleave Par.ParProofs.
+From PF Require Import Par.Partition Par.Interleave Par.ParProofs Par.ParExtra Check.C10.
 Import ListNotations.
 
 (* ------------------------------------------------------------------ work partition (mesh.go) *)
@@ -60,6 +60,14 @@ Print Assumptions pool_size_irrelevant.
 Theorem partition_go_ints : forall n s, 1 <= s -> visitedZ (Z.of_nat n) s = map Z.of_nat (visited n s).
 Proof. exact visitedZ_nat. Qed.
 Print Assumptions partition_go_ints.
+
+(* The evaluator (Check/C10.v) judges element counts up to 2*10^6 with the partition computed on binary
+   numbers: that partition is the model's, and its ranges follow each other from 0 to n. *)
+Theorem partition_binary : forall n s,
+  rangesN (N.of_nat n) (N.of_nat s) = map (fun r => (N.of_nat (fst r), N.of_nat (snd r))) (ranges n s)
+  /\ (1 <= s -> chainN 0%N (rangesN (N.of_nat n) (N.of_nat s)) (N.of_nat n) = true).
+Proof. intros n s. split; [exact (rangesN_spec n s) | exact (chainN_ranges n s)]. Qed.
+Print Assumptions partition_binary.
 
 (* ------------------------------------------------------------------ scans *)
 
@@ -163,6 +171,25 @@ Proof.
   split; [exact job_positions_spec|]. split; [exact cell_index_range | exact cell_index_inj].
 Qed.
 Print Assumptions addfield_jobs_partition_box.
+
+(* End to end.  `field_jobs val mn mx attrs` is the job list AddFieldParallel dispatches for a field whose
+   Float1 functions are `val a` (a in attrs, no attribute twice) over the canvas box [mn, mx): one job per
+   (attribute, chunk of chunkSectionsInRange), adding `val a p` into cell `cell_index c p` for the box positions
+   p of chunk c.  For EVERY interleaving of these jobs: a cell that belongs to the box and to a dispatched
+   attribute receives exactly one addition, of its own value; every other cell is left as it was.  (Cells are
+   addressed as (attribute, chunk_pos p, cell_index (chunk_pos p) p); every cell of a chunk is of that form.) *)
+Theorem addfield_parallel_exact :
+  forall (A V : Type) (aeqb : A -> A -> bool) (add : V -> V -> V),
+    (forall a b, aeqb a b = true <-> a = b) ->
+  forall (val : A -> vec -> V) (mn mx : vec) (attrs : list A) e (st : @canvas (A * vec) V),
+    NoDup attrs -> interleaving e (map job_steps (field_jobs val mn mx attrs)) ->
+    forall a p,
+      let k := (a, chunk_pos p) in
+      let cell := cell_index (chunk_pos p) p in
+      (In a attrs -> in_box p mn mx -> run_canvas (fkeqb aeqb) add e st k cell = add (st k cell) (val a p))
+      /\ (~ (In a attrs /\ in_box p mn mx) -> run_canvas (fkeqb aeqb) add e st k cell = st k cell).
+Proof. intros A V aeqb add H. exact (ParExtra.addfield_parallel_exact aeqb add H). Qed.
+Print Assumptions addfield_parallel_exact.
 
 (* ------------------------------------------------------------------ March / MarchParallel *)
 
